@@ -96,6 +96,7 @@ def run(tier, seed):
     col = stepcheck.explore(its, MONS, H, D, seed=seed, max_group=1 if tier == "quick" else 2)
     oi = option_items(tier)
     col.merge(stepcheck.explore(oi, MONS, 0, 0, seed=seed))
+    col.merge(stepcheck.explore(F.scale_items(("TSLACK",)), MONS, 0, 0, seed=seed))  # medium-sized models (10-14 tasks / workers / machines), long absence lists
     meta = {
         "level": "model_checking",
         "rule": "FS workflows on 3 tasks x all cost-rate triples over {0,1,2.5} in two teams plus an empty team (runs to completion and runs cut by max_time=2 -> FAILURE) "
